@@ -49,6 +49,7 @@ static void dump_msg (StunAgent *ag, StunMessage *m, uint16_t extra)
   P (" K="); if (m->key) hc_puthex (hc_out, m->key, m->key_len); else P ("n");
 }
 
+static __attribute__((noinline)) void dirty_stack (void) { volatile int a[2048]; for (int i = 0; i < 2048; i++) a[i] = 403; }
 static int n_valid (StunAgent *ag) { int n = 0; for (int i = 0; i < STUN_AGENT_MAX_SAVED_IDS; i++) n += ag->sent_ids[i].valid ? 1 : 0; return n; }
 
 int main (void)
@@ -89,6 +90,7 @@ int main (void)
         size_t l; uint8_t *b;
         if (!strcmp (hx, "@")) { l = blen; b = malloc (l ? l : 1); if (l) memcpy (b, bbuf, l); b = realloc (b, l ? l : 1); } else b = hc_unhex_tight (hx, &l);
         StunMessage m; memset (&m, 0, sizeof m);
+        dirty_stack ();   /* whatever the callee reads from the stack without having written it first is 403 / 0x93 bytes, not luck */
         StunValidationStatus st = stun_agent_validate (&ag, &m, b, l, strcmp (vt, "n") ? stun_agent_default_validater : NULL, vd);
         P (" v=%d n%d", (int) st, n_valid (&ag));
         if (st != STUN_VALIDATION_NOT_STUN && st != STUN_VALIDATION_INCOMPLETE_STUN) { dump_msg (&ag, &m, extra); R = m; rbuf = b; have_r = 1; }
